@@ -208,11 +208,15 @@ func (s *Stream) BufferReader() BufferReader {
 // it mean that this stream hadn't send any data to peer after flush, and the peer could close stream after receive data
 func (s *Stream) Flush(endStream bool) error {
 	if s.sendBuf.Len() == 0 {
+		// the data written to a stream which had been closed meanwhile (e.g. by the session's shutdown) was dropped.
+		if s.getStreamState() == uint32(streamClosed) {
+			return ErrStreamClosed
+		}
 		return nil
 	}
 	atomic.AddUint64(&s.session.stats.outFlowBytes, uint64(s.sendBuf.Len()))
 	state := s.getStreamState()
-	if state != uint32(streamOpened) {
+	if state != uint32(streamOpened) || s.session.IsClosed() {
 		s.sendBuf.recycle()
 		return ErrStreamClosed
 	}
